@@ -248,6 +248,37 @@ func runC19(ctx *Ctx) error {
 				ctx.Res.Count("exclude-schemas")
 			}
 		}
+		if i%10 == 0 {
+			// every tenth document is padded until the emitted literal is a whole number of 80-column chunks (the padding is
+			// not compressible, so a few dozen tries sweep all residues): the last chunk is then a full one
+			base := doc["info"].(J)["description"].(string)
+			for pad := 0; pad < 600; pad++ {
+				var sb strings.Builder
+				pr := NewRng(uint64(ctx.Seed)*7919 + uint64(i)*131 + uint64(pad))
+				for k := 0; k < pad; k++ {
+					sb.WriteByte("abcdefghijklmnopqrstuvwxyzABCDEFGHIJKLMNOPQRSTUVWXYZ0123456789"[pr.Intn(62)])
+				}
+				doc["info"].(J)["description"] = base + sb.String()
+				sp, err := loadDoc(doc)
+				if err != nil {
+					return err
+				}
+				out, err := generate(sp, cfg)
+				if err != nil {
+					break
+				}
+				if f0, _, perr := parseGo(out); perr == nil {
+					total := 0
+					for _, c := range literalChunks(f0) {
+						total += len(c)
+					}
+					if total%80 == 0 {
+						ctx.Res.Count("literal-length-multiple-of-80")
+						break
+					}
+				}
+			}
+		}
 		ctx.Res.Eval(J{"doc": Hash(doc), "filter": fc, "prune": prune}, true)
 		replay := J{"doc": doc, "cfg": cfg}
 		spec, err := loadDoc(doc)
